@@ -455,3 +455,21 @@ M("C17", "device noise model preferred when the flag is off", "kill",
   [(PA, "            if config.prefer_device_noise_model\n", "            if not config.prefer_device_noise_model\n")], "NOISE-source")
 M("C16", "jump operators from the config's model, sampler from the selected one", "kill",
   [(PA, "            self.noise_model, dim=self.dim, interact_type=int_type", "            config.noise_model, dim=self.dim, interact_type=int_type")], "NOISE-source")
+BK = "emu_mps/mps_backend.py"
+M("C14", "emu-mps run loop never entered", "kill", [(BK, "        while not impl.is_finished():\n", "        while impl.is_finished():\n")], "DRIVER")
+M("C18", "emu-mps run loop progresses once", "kill", [(BK, "        while not impl.is_finished():\n            impl.progress()\n", "        if not impl.is_finished():\n            impl.progress()\n")], "DRIVER")
+M("C02", "driver not initialised before the run", "kill", [(BK, "        impl.init()  # This is separate from the constructor for testing purposes.\n", "")], "DRIVER")
+M("C13", "energy variance observable bound to the second-moment implementation", "kill",
+  [("emu_mps/mps_config.py", "                    energy_variance_mps_impl, obs_copy", "                    energy_second_moment_mps_impl, obs_copy")], "OBSDEF-dispatch")
+M("C13", "emu-sv: density-matrix and state-vector implementations swapped", "kill",
+  [("emu_sv/sv_config.py", "                    choose(qubit_occupation_sv_impl, qubit_occupation_sv_den_mat_impl),", "                    choose(qubit_occupation_sv_den_mat_impl, qubit_occupation_sv_impl),")], "OBSDEF-dispatch")
+M("C13", "emu-sv: correlation matrix left to Pulser's generic implementation", "kill",
+  [("emu_sv/sv_config.py", "            if isinstance(obs, CorrelationMatrix):\n", "            if False:\n")], "OBSDEF-dispatch")
+M("C13", "emu-mps: patched copy not kept", "kill",
+  [("emu_mps/mps_config.py", "            obs_list.append(obs_copy)\n", "            obs_list.append(obs)\n")], "OBSDEF-dispatch")
+M("C14", "emu-mps fill_results matches evaluation times within half a nanosecond", "kill",
+  [(IMPL, "            if self._is_evaluation_time(callback, fractional_time)\n", "            if self._is_evaluation_time(callback, fractional_time, 0.5 / self.target_times[-1])\n")], "ONCE-tolerance")
+M("C14", "emu-sv filter default tolerance widened", "kill",
+  [(SVI, "        tolerance: float = 1e-10,\n", "        tolerance: float = 1e-6,\n")], "ONCE-tolerance")
+M("C14", "twin: tighter explicit filter tolerance", "twin",
+  [(IMPL, "            if self._is_evaluation_time(callback, fractional_time)\n", "            if self._is_evaluation_time(callback, fractional_time, 1e-11)\n")])
